@@ -15,6 +15,7 @@ structure Obs where
   errors : List Err                   -- SecNode.errors, classes
   log : List Ev
   ioDict : List (String × Name)       -- names given to automatically created communicators (a naming table only)
+  written : List (Name × String × Int) := []   -- (module, parameter, value) of every call of a `write_` method, in order
 deriving Repr
 
 /-! ## the attachment graph of a configuration -/
@@ -149,13 +150,36 @@ def NoHalfStart (o : Obs) : Prop := o.errors ≠ [] → ∀ e ∈ o.log, isStart
 
 instance (o : Obs) : Decidable (NoHalfStart o) := by unfold NoHalfStart; infer_instance
 
+/-- the configured start value of a parameter (frappy/params.py, "Usage of 'value' and 'default'"): the `value` given
+in the configuration, else the `value` argument of the parameter's declaration ("if a value should be written to the HW
+on startup, even when not given in the config").  A `default` — declared or configured — is not a start value ("assigned
+to the parameter but not written to the HW"), and whether the start value happens to be equal to a default is of no
+concern. -/
+def startValue (q : PCfg) : Option Int :=
+  match q.cfgValue with
+  | some v => some v
+  | none => q.clsValue
+
+/-- the parameters of a module that have a configured start value and can be written (a `write_` method exists) -/
+def startParams (c : ModCfg) : List String :=
+  (c.params.filter (fun q => q.hasWrite && (startValue q).isSome)).map (·.name)
+
 /-- "configured start values are written before the first poll" (and once) -/
 def WritesBeforeFirstPoll (u : List ModCfg) (log : List Ev) : Prop :=
-  ∀ c ∈ u, ∀ p ∈ c.writes,
+  ∀ c ∈ u, ∀ p ∈ startParams c,
     log.count (.write c.name p) = 1 ∧ NeverAfter (· == .firstpoll c.name) (· == .write c.name p) log
 
 instance (u : List ModCfg) (log : List Ev) : Decidable (WritesBeforeFirstPoll u log) := by
   unfold WritesBeforeFirstPoll; infer_instance
+
+/-- "configured start values are written": what a `write_` method of a module is handed at start-up is the configured
+start value of that parameter — never a default, a stale or a converted-away value -/
+def StartValuesHandedOver (u : List ModCfg) (written : List (Name × String × Int)) : Prop :=
+  ∀ c ∈ u, ∀ q ∈ c.params, q.hasWrite = true → ∀ v ∈ (startValue q).toList,
+    ∀ w ∈ written, w.1 = c.name → w.2.1 = q.name → w.2.2 = v
+
+instance (u : List ModCfg) (written : List (Name × String × Int)) : Decidable (StartValuesHandedOver u written) := by
+  unfold StartValuesHandedOver; infer_instance
 
 def isThread : Ev → Option Name
   | .thread t => some t
@@ -245,6 +269,8 @@ def judge (cfg : Cfg) (o : Obs) : List String :=
   (if decide (NoHalfStart o) then [] else ["no_half_start"]) ++
   (if up && !decide (WritesBeforeFirstPoll (u.filter (fun c => o.modules.contains c.name)) o.log)
      then ["writes_before_first_poll"] else []) ++
+  (if up && !decide (StartValuesHandedOver (u.filter (fun c => o.modules.contains c.name)) o.written)
+     then ["start_values_handed_over"] else []) ++
   (if decide (ReadyAfterFirstRound o.log) && decide (RoundComplete u o.ioDict o.log) then []
      else ["ready_after_first_round"]) ++
   (if up && !decide (ShutdownOrder o.modules edges o.log) then ["shutdown_order"] else []) ++
